@@ -235,6 +235,7 @@ impl SchedSim {
         // ---- reach ----
         ctx.add("scheduling_points", out.steps as u64);
         ctx.add("context_switches", out.switches as u64);
+        ctx.add("fault_fired:context-switch-at-a-synchronisation-point", out.switches as u64);
         let mut pending: BTreeMap<u8, &'static str> = BTreeMap::new();
         let mut mid_op_switch = false;
         let mut window_switch = false;
@@ -276,7 +277,6 @@ impl SchedSim {
         ctx.log.bytes(&out.choices);
         ctx.log.u64(reg.ops_done);
         // Remember the schedule actually taken so a violation can be replayed exactly.
-        ctx.counters.insert("__schedule_len".into(), out.choices.len() as u64);
         LAST_SCHEDULE.with(|l| *l.borrow_mut() = out.choices.clone());
     }
 }
